@@ -206,3 +206,120 @@ def texts_for(draw, graphs: Dict[str, dict], bias_out: bool = True):
     parts = draw(st.permutations(chosen + noise))
     text = " ".join(parts)
     return draw(st.sampled_from([text, text.upper(), text.lower(), text]))
+
+
+# ------------------------------------------------------------------------------------------------
+# memory episodes, encoders
+# ------------------------------------------------------------------------------------------------
+
+class BowEncoder:
+    """Bag-of-words embedding over VOCAB (lower-cased whitespace tokens), injected through ctx.enc.
+    Small-integer vectors: exact ties, zero vectors and score gaps >> 1e-6, so a float64 reference is exact."""
+
+    def __init__(self, vocab=None):
+        self.vocab = [w.lower() for w in (vocab or VOCAB)]
+
+    def vec(self, text: str):
+        toks = (text or "").lower().split()
+        return [float(toks.count(w)) for w in self.vocab]
+
+    def encode(self, texts):
+        import numpy as np
+
+        return [np.asarray(self.vec(t), dtype=np.float32) for t in texts]
+
+
+EP_IDS = ["e1", "e10", "e2", "E3", "é4", "e5", "ep-6", "e07", "e8", "e9", "a", "z"]
+OWNERS = ["A", "B", "world", ""]
+NOW_ISO = "2025-06-15T12:00:00Z"
+NOW_MS = 1_749_988_800_000  # 2025-06-15T12:00:00Z
+_AGES_S = [0, 3600, 86400, 6 * 86400 + 43200, 7 * 86400, 7 * 86400 + 1, 29 * 86400, 30 * 86400, 30 * 86400 + 1,
+           31 * 86400, 100 * 86400, 364 * 86400, 400 * 86400, -3600]
+_EP_WORDS = st.one_of(st.lists(st.sampled_from(VOCAB), min_size=0, max_size=4), st.lists(st.sampled_from(VOCAB[:5]), min_size=1, max_size=4))
+
+
+def iso_minus(now_iso: str, age_s: int, z: bool = True) -> str:
+    import datetime as _dt
+
+    t = _dt.datetime.fromisoformat(now_iso.replace("Z", "+00:00")) - _dt.timedelta(seconds=age_s)
+    s = t.isoformat()
+    return s.replace("+00:00", "Z") if z else s
+
+
+@st.composite
+def episode_lists(draw, max_eps: int = 12, owners=None, allow_missing_ts: bool = True, now_iso: str = NOW_ISO,
+                  ids=None):
+    owners = owners or OWNERS
+    ids = ids or EP_IDS
+    chosen = draw(st.one_of(st.lists(st.sampled_from(ids), min_size=0, max_size=max_eps, unique=True),
+                            st.lists(st.sampled_from(ids), min_size=min(5, max_eps), max_size=max_eps, unique=True)))
+    enc = BowEncoder()
+    eps = []
+    for eid in chosen:
+        words = draw(_EP_WORDS)
+        text = " ".join(words)
+        if draw(st.sampled_from([False, False, False, True])):
+            text = text.upper()
+        kind = draw(st.sampled_from(["bow", "bow", "bow", "explicit", "zero", "none"]))
+        if kind == "bow":
+            vec = enc.vec(text)
+        elif kind == "explicit":
+            vec = [float(draw(st.integers(0, 3))) for _ in VOCAB]
+        elif kind == "zero":
+            vec = [0.0] * len(VOCAB)
+        else:
+            vec = None
+        ep = {"id": eid, "owner": draw(st.sampled_from(owners)), "text": text, "vec_full": vec}
+        if allow_missing_ts and draw(st.sampled_from([False] * 11 + [True])):
+            pass
+        else:
+            ep["ts"] = iso_minus(now_iso, draw(st.sampled_from(_AGES_S)), z=draw(st.booleans()))
+        aux = {}
+        if draw(st.booleans()):
+            aux["cluster_id"] = draw(st.sampled_from(["c1", "c2", "c3"]))
+        if draw(st.booleans()):
+            aux["importance"] = draw(st.sampled_from([0.0, 0.25, 0.5, 1.0, 2.0, -1.0, 0.9]))
+        if aux or draw(st.booleans()):
+            ep["aux"] = aux
+        eps.append(ep)
+    return eps
+
+
+def build_index(eps):
+    import numpy as np
+    from clematis.memory.index import InMemoryIndex
+
+    idx = InMemoryIndex()
+    for e in eps:
+        d = copy.deepcopy(e)
+        if d.get("vec_full") is not None:
+            d["vec_full"] = np.asarray(d["vec_full"], dtype=np.float32)
+        idx.add(d)
+    return idx
+
+
+def index_digest(idx) -> Any:
+    out = []
+    for e in getattr(idx, "_eps", []):
+        v = e.get("vec_full")
+        out.append((str(e.get("id")), e.get("owner"), e.get("text"), e.get("ts"), repr(e.get("aux")),
+                    None if v is None else [float(x) for x in v], sorted(k for k in e.keys())))
+    return {"ver": getattr(idx, "_ver", None), "eps": out}
+
+
+@st.composite
+def gel_graphs(draw, ids):
+    """state['graph'] for hybrid rerank / GEL: undirected edges between episode ids under canonical 'a→b' keys."""
+    ids = list(ids)
+    edges = {}
+    if len(ids) >= 2:
+        n = draw(st.integers(0, min(8, len(ids) * 2)))
+        for _ in range(n):
+            a = draw(st.sampled_from(ids))
+            b = draw(st.sampled_from(ids))
+            if a == b:
+                continue
+            s, d = (a, b) if a <= b else (b, a)
+            w = draw(st.sampled_from([0.05, 0.1, 0.2, 0.5, 0.9, 1.0, -0.5]))
+            edges[f"{s}→{d}"] = {"id": f"{s}→{d}", "src": s, "dst": d, "weight": w, "rel": "coact", "attrs": {}}
+    return {"nodes": {i: {"id": i} for i in ids}, "edges": edges, "meta": {}}
